@@ -87,6 +87,37 @@ theorem ring_refines_fifo_from (q : Ring) (h : WF q) (ops : List Op) :
   have r := run_rep ops q (abs q) (wf_rep h)
   ⟨r.1, rep_wf r.2, rep_abs r.2⟩
 
+/-- pushes (each one atomic: `Push` holds the mutex from its first to its last statement) keep the ring well-formed and append -/
+theorem ring_pushes_refine (xs : List Nat) : ∀ (q : Ring), WF q →
+    WF (xs.foldl push q) ∧ abs (xs.foldl push q) = abs q ++ xs := by
+  induction xs with
+  | nil => intro q h; exact ⟨h, by simp⟩
+  | cons x xs ih =>
+    intro q h
+    obtain ⟨h1, h2⟩ := ring_push_refines q x h
+    obtain ⟨h3, h4⟩ := ih (push q x) h1
+    exact ⟨h3, by rw [List.foldl_cons, h4, h2, List.append_assoc]; rfl⟩
+
+/-- **`Pop`'s lock-free `Empty()` pre-check is sound for the single consumer** (queue.go:72-74: `len` is loaded without
+the mutex, the mutex is taken only if it was non-zero).  If the queue was non-empty at the load, then whatever pushes
+`xs` other goroutines complete between the load and the locked section, the locked section returns the element that was
+oldest AT THE LOAD and leaves the rest followed by the new pushes: the two-step `Pop` equals the atomic pop of the list
+model taken at the locked section (and an "empty" answer equals the atomic pop taken at the load), which is what
+`Fine.popU` uses.  Only the consumer removes, so non-emptiness persists. -/
+theorem ring_pop_precheck_sound (q : Ring) (xs : List Nat) (h : WF q) (hne : abs q ≠ []) :
+    ∃ x rest, abs q = x :: rest ∧ (pop (xs.foldl push q)).1 = some (some x) ∧
+      WF (pop (xs.foldl push q)).2 ∧ abs (pop (xs.foldl push q)).2 = rest ++ xs := by
+  obtain ⟨h1, h2⟩ := ring_pushes_refine xs q h
+  cases hl : abs q with
+  | nil => exact absurd hl hne
+  | cons x rest =>
+    rcases ring_pop_refines (xs.foldl push q) h1 with ⟨he, _⟩ | ⟨y, r, hy, hp, hw, ha⟩
+    · rw [h2, hl] at he; simp at he
+    · rw [h2, hl] at hy
+      simp only [List.cons_append, List.cons.injEq] at hy
+      obtain ⟨hy1, hy2⟩ := hy
+      exact ⟨x, rest, rfl, by rw [hp, hy1], hw, by rw [ha, hy2]⟩
+
 /-- the guard `n ≥ 1` is needed: with `mod = 0` the model is not well-formed (and the Go
 code panics with a division by zero inside `Push`, holding the lock) -/
 theorem ring_new_zero_degenerate : ¬ WF (new 0) := by
